@@ -16,7 +16,7 @@ import (
 func init() {
 	register(&propDef{
 		id:      "C12",
-		explain: "Structural necessary conditions of 'the concurrency, open-connection and per-IP counters are exact and the limits are enforced', decided per function on every path by exploration with counters in the abstract state (deferred calls applied at function exit): tryAcquireConcurrency nets +1 exactly when it returns true; ServeConn nets 0 on concurrency and open at every return; serveConnCounted nets 0 on concurrency and -1 on open (it gives back the unit its caller took) at every return; Serve gives back the open unit on the rejection branch of workerPool.Serve and keeps its own listener unit balanced; wrapPerIPConn registers exactly one unit when it returns a per-IP wrapper and none otherwise; perIPConn.Close / perIPTLSConn.Close unregister exactly once - on the call that finds the wrapper not closed yet (a 'closed' flag, or the connection taken out of the wrapper) - and never otherwise. Admission: the success return of tryAcquireConcurrency and the wrapper return of wrapPerIPConn are control-dependent on the comparison with the limit; the rejection paths write 503 / 429 and close the connection; Serve raises and lowers the count of listening Serve calls together with the open unit it holds, and GetOpenConnectionsCount corrects the open count by that counter, not by a constant. (R-wrap) a per-IP accounting wrapper taken from its pool has every field (the counted address above all) assigned on every path of the acquiring function that hands it out, so Close gives the count back for the address that was counted. Not decided: peak concurrent service under schedules, IPv6 (not counted by design).",
+		explain: "Structural necessary conditions of 'the concurrency, open-connection and per-IP counters are exact and the limits are enforced', decided per function on every path by exploration with counters in the abstract state (deferred calls applied at function exit): tryAcquireConcurrency nets +1 exactly when it returns true; ServeConn nets 0 on concurrency and open at every return; serveConnCounted nets 0 on concurrency and -1 on open (it gives back the unit its caller took) at every return; Serve gives back the open unit on the rejection branch of workerPool.Serve and keeps its own listener unit balanced; wrapPerIPConn registers exactly one unit when it returns a per-IP wrapper and none otherwise; perIPConn.Close / perIPTLSConn.Close unregister exactly once - on the call that finds the wrapper not closed yet (a 'closed' flag, or the connection taken out of the wrapper) - and never otherwise. Admission: the success return of tryAcquireConcurrency and the wrapper return of wrapPerIPConn are control-dependent on the comparison with the limit; the rejection paths write 503 / 429 and close the connection; Serve raises and lowers the count of listening Serve calls together with the open unit it holds, and GetOpenConnectionsCount corrects the open count by that counter, not by a constant. (R-wrap) a per-IP accounting wrapper taken from its pool has every field (the counted address above all) assigned on every path of the acquiring function that hands it out, so Close gives the count back for the address that was counted. (R2, shared with C13) per iteration of the worker loop every served connection that was not hijacked in that iteration is closed (which gives its per-IP unit back); Not decided: peak concurrent service under schedules, IPv6 (not counted by design).",
 		run:     runC12,
 	})
 }
@@ -24,6 +24,14 @@ func init() {
 func runC12(p *Prog, r *Report) {
 	runC12x(p, r, false)
 	perIPWrapperRule(p, r)
+	// the per-IP unit of a served connection is given back by Close, which the worker loop owes every connection that
+	// was not hijacked - decided per iteration (shared with C13.R2): a hijack decision that outlives its iteration
+	// leaves later connections unclosed and their address counted for ever
+	if wf := p.Func("(*workerPool).workerFunc"); wf != nil {
+		workerLoopTerminalRule(p, r, wf)
+	} else {
+		r.Undecided("R2", "(*workerPool).workerFunc", "not found")
+	}
 }
 
 // runC12x: openOnly restricts the run to the obligations on Server.open (used by C15: Shutdown waits for open == 0).
